@@ -11,6 +11,9 @@
 (* Expressions are looked up in a table (the cases use a fixed set of      *)
 (* expressions whose value text is known): codes[j] = [code, val, tick];   *)
 (* tick = TRUE: evaluating it increments the side-effect counter.          *)
+(* next = TRUE: its value is the number of such expressions evaluated so   *)
+(* far in the literal, counted from the left (a digit): expressions are    *)
+(* evaluated from left to right.                                           *)
 (* Interp returns [out, ticks, exact]; exact = FALSE: the literal contains *)
 (* an expression outside the table (the reference then only demands that   *)
 (* the evaluation yields a string and terminates).                         *)
@@ -36,13 +39,16 @@ Scan(s, from, codes, acc) ==
   ELSE LET c == Find(s, Close, o + 2) IN
        IF c = 0 THEN [out |-> acc.out \o SubSeq(s, from, Len(s)), ticks |-> acc.ticks, exact |-> acc.exact]
        ELSE LET code == SubSeq(s, o + 2, c - 1)
-                j == CodeIdx(codes, code) IN
+                j == CodeIdx(codes, code)
+                isNext == j # 0 /\ codes[j].next
+                val == IF j = 0 THEN <<>> ELSE IF isNext THEN <<48 + acc.nexts + 1>> ELSE codes[j].val IN
             Scan(s, c + 2, codes,
-                 [out |-> acc.out \o SubSeq(s, from, o - 1) \o (IF j = 0 THEN <<>> ELSE codes[j].val),
+                 [out |-> acc.out \o SubSeq(s, from, o - 1) \o val,
                   ticks |-> acc.ticks + (IF j # 0 /\ codes[j].tick THEN 1 ELSE 0),
-                  exact |-> acc.exact /\ j # 0])
+                  nexts |-> acc.nexts + (IF isNext THEN 1 ELSE 0),
+                  exact |-> acc.exact /\ j # 0 /\ acc.nexts < 8])
 
 Interp(lit, raw, codes) ==
   IF raw THEN [out |-> lit, ticks |-> 0, exact |-> TRUE]
-  ELSE Scan(lit, 1, codes, [out |-> <<>>, ticks |-> 0, exact |-> TRUE])
+  ELSE Scan(lit, 1, codes, [out |-> <<>>, ticks |-> 0, nexts |-> 0, exact |-> TRUE])
 =============================================================================
